@@ -997,8 +997,11 @@ class HistogramBase(abc.ABC):
                 self._coerce_dtype(factor_dtype)
             except ValueError as v:
                 raise TypeError(str(v)) from v
-            self.frequencies = self.frequencies * scalar
-            self.errors2 = self.errors2 * scalar**2
+            # Calculate (and possibly fail) before anything is changed
+            frequencies = self.frequencies * scalar
+            errors2 = self.errors2 * scalar**2
+            self.frequencies = frequencies
+            self.errors2 = errors2
             self._missed = self._missed * scalar
             if hasattr(self, "_stats"):
                 self._stats = self._stats * scalar
@@ -1030,8 +1033,10 @@ class HistogramBase(abc.ABC):
                 other = int(other)  # other**2 must not wrap around in a narrow type
             inverse = 1 / other  # Fail (e.g. for zero) before anything is changed
             self._coerce_dtype(np.float64)
-            self.frequencies = self.frequencies / other
-            self.errors2 = self.errors2 / other**2
+            frequencies = self.frequencies / other
+            errors2 = self.errors2 / other**2
+            self.frequencies = frequencies
+            self.errors2 = errors2
             self._missed /= other
             if hasattr(self, "_stats"):
                 self._stats *= inverse
